@@ -129,6 +129,14 @@ Example C05_ex_sign_needs_final_reset :
   let s' := fst (crun (fun b => b) (c_init sample_tx) [OReset; OReadId; OEdit sample_tx2]) in
   fst (read_raw s') <> serialize (c_cur s').
 Proof. exact sign_without_final_reset_refuted. Qed.
+(* add_inputs/add_outputs whose iterable raises midway: appended items without a reset leave a stale
+   raw (old _add); with the reset (OAdd, the repaired _add) raw is current *)
+Example C05_ex_partial_add_needs_reset :
+  let s' := fst (crun (fun b => b) (c_init sample_tx) [OReadRaw; OEdit sample_tx2]) in
+  fst (read_raw s') <> serialize (c_cur s') /\
+  let s'' := fst (crun (fun b => b) (c_init sample_tx) [OReadRaw; OAdd sample_tx2]) in
+  fst (read_raw s'') = serialize (c_cur s'').
+Proof. exact partial_add_without_reset_refuted. Qed.
 (* a transaction without inputs does NOT round-trip (its bytes start with the segwit marker):
    the reason wf_tx asks for an input *)
 Example C05_ex_no_input : deserialize (serialize no_input_tx) <> ROk (lift no_input_tx).
